@@ -586,7 +586,9 @@ static void ensure_preset(void) {
     edn_reader_register(preset_registry, "inst", h_alt);
 }
 
-static edn_value_t eof_sentinel;
+/* the caller's end-of-input value: a real value with an arena of its own, read once at start-up */
+static edn_value_t* eof_sentinel_ptr = NULL;
+#define EOF_SENTINEL eof_sentinel_ptr
 
 /* R <opt> <hex> : opt bit0 = eof_value, bits1-2 = default mode, bit3 = preset registry,
  * bit4 = pass options==NULL */
@@ -596,7 +598,7 @@ static void print_result(FILE* f, edn_result_t r, int with_calls) {
     if (r.value == NULL && r.error == EDN_OK)
         fputs("NEITHER ", f);
     if (r.value != NULL) {
-        if (r.value == &eof_sentinel) {
+        if (r.value == EOF_SENTINEL) {
             fputs("eofval", f);
         } else {
             fputs("ok ", f);
@@ -624,7 +626,7 @@ static void print_result(FILE* f, edn_result_t r, int with_calls) {
 static edn_result_t do_read(const char* in, size_t n, int opt) {
     edn_parse_options_t o;
     memset(&o, 0, sizeof(o));
-    o.eof_value = (opt & 1) ? &eof_sentinel : NULL;
+    o.eof_value = (opt & 1) ? EOF_SENTINEL : NULL;
     o.default_reader_mode = (edn_default_reader_mode_t) ((opt >> 1) & 3);
     if (opt & 8) {
         ensure_preset();
@@ -679,7 +681,7 @@ static void cmd_read(char* args, int print_msg) {
         fputs(" INPUT-MODIFIED", stdout);
     fputc('\n', stdout);
     fflush(stdout);
-    if (r.value && r.value != &eof_sentinel)
+    if (r.value && r.value != EOF_SENTINEL)
         edn_free(r.value);
     free(copy);
     release_input(p);
@@ -718,7 +720,7 @@ static void* thread_main(void* a) {
             if (strcmp(d, c->ref[i]) != 0 && c->bad_doc < 0)
                 c->bad_doc = i;
             free(d);
-            if (res.value && res.value != &eof_sentinel)
+            if (res.value && res.value != EOF_SENTINEL)
                 edn_free(res.value);
         }
     }
@@ -743,7 +745,7 @@ static void cmd_threads(char* args) {
         free(b);
         edn_result_t r = do_read(in[nd].ptr, n, opt);
         ref[nd] = dump_to_string(r, (opt & 8) != 0);
-        if (r.value && r.value != &eof_sentinel)
+        if (r.value && r.value != EOF_SENTINEL)
             edn_free(r.value);
         nd++;
     }
@@ -795,7 +797,7 @@ static void cmd_read_destroy(char* args) {
     print_result(stdout, r, 1);
     fputc('\n', stdout);
     fflush(stdout);
-    if (r.value && r.value != &eof_sentinel)
+    if (r.value && r.value != EOF_SENTINEL)
         edn_free(r.value);
     edn_free(NULL);
     release_input(p);
@@ -1489,7 +1491,7 @@ static void cmd_fault(char* args) {
     print_result(stdout, r, 0);
     long reqs_all = vf_req;
     vf_active = 0;
-    if (r.value && r.value != &eof_sentinel)
+    if (r.value && r.value != EOF_SENTINEL)
         edn_free(r.value);
     vf_track = 0;
     printf(" reqs=%ld/%ld fired=%ld live=%ld", reqs_read, reqs_all, vf_fired, vf_live);
@@ -1508,9 +1510,10 @@ int main(int argc, char** argv) {
     (void) argv;
     signal(SIGALRM, on_alarm);
     signal(SIGPROF, on_alarm);
-    memset(&eof_sentinel, 0, sizeof(eof_sentinel));
-    eof_sentinel.type = EDN_TYPE_KEYWORD;
-    eof_sentinel.arena = NULL;
+    {
+        edn_result_t er = edn_read(":verif/eof-sentinel", 0);
+        eof_sentinel_ptr = er.value;
+    }
     edn_free(NULL); /* harmless by contract */
     size_t cap = 1 << 22;
     char* line = (char*) malloc(cap);
